@@ -8,6 +8,7 @@
 //     Closure.Call and strutil.HasSubseq with the real code (in-process);
 //   - docmerge/docshow/docfind/closrc (round 2, docmatch.go) the same for
 //     pkg/mods/doc/match.go and closure[def]/closure[body];
+//   - makemap (makemap.go) the same for `make-map`'s handling of one input pair;
 //   - call/form        EXPLORATION (not the proof): every registered builtin and
 //     module function with adversarial arguments, and random forms with
 //     redirections, evaluated by the real interpreter in worker processes
@@ -71,7 +72,7 @@ func run(c *common.Ctx) error {
 	if err != nil {
 		return err
 	}
-	baseline, order, err := inventory.ReadBaseline(filepath.Join(rootDir(), "harness", "c17", "inventory_baseline.txt"))
+	baseline, order, err := inventory.ReadBaselineFull(filepath.Join(rootDir(), "harness", "c17", "inventory_baseline.txt"))
 	if err != nil {
 		return err
 	}
@@ -80,11 +81,17 @@ func run(c *common.Ctx) error {
 		current[s.Key()] = s
 	}
 	statusOf := func(key string) string {
-		if _, ok := current[key]; !ok {
+		site, ok := current[key]
+		if !ok {
 			return "gone"
 		}
-		if st, ok := baseline[key]; ok {
-			return st
+		if e, ok := baseline[key]; ok {
+			// a reviewed site was read with certain guards in place: when they
+			// are not the guards of the tree any more the review is void
+			if g := inventory.GuardStatus(site, e); g != "" {
+				return g
+			}
+			return e.Status
 		}
 		return "new"
 	}
@@ -122,6 +129,7 @@ func run(c *common.Ctx) error {
 		genDocShow(c, emit)
 		genDocFind(c, emit)
 		genCloSrc(c, emit)
+		genMakeMap(c, emit)
 		// the enumeration evaluates elvish code in this process: when even that
 		// crashes, the same code is handed to a worker so that the crash is
 		// reported as the failing input it is
@@ -141,6 +149,17 @@ func run(c *common.Ctx) error {
 		genCalls(c, fns, emit)
 		genForms(c, emit)
 		genRelated(c, fns, emit)
+		genShapes(c, fns, emit)
+		genSameTwice(c, fns, emit)
+	}
+	if os.Getenv("C17_COUNT_OPS") != "" { // debugging aid: what the generators emit, without running it
+		h := map[string]int{}
+		for _, op := range ops {
+			f := strings.Split(op, "\t")
+			h[f[0]]++
+		}
+		fmt.Fprintln(os.Stderr, "ops by kind:", h)
+		return fmt.Errorf("C17_COUNT_OPS set: generated %d ops, ran none", len(ops))
 	}
 	// ---- execution -----------------------------------------------------------------
 	results := make([]opResult, len(ops))
@@ -206,6 +225,15 @@ func run(c *common.Ctx) error {
 				results[i].class, results[i].detail = "panic-closure-src-field", out+" "+pmsg+" :: "+unhexE(f[1])
 			}
 			results[i].tag = "closrc-" + strings.SplitN(out, " ", 2)[0] + "-lambdas"
+		case "makemap":
+			if len(f) != 3 {
+				results[i].impl = "bad-op"
+				continue
+			}
+			out, pmsg := common.Guard(20*time.Second, func() string { return implMakeMap(f) })
+			results[i].impl = out
+			results[i].class, results[i].detail = oracleMakeMap(f, out, pmsg)
+			results[i].tag = tagMakeMap(out)
 		case "inv":
 			st := statusOf(f[1])
 			switch {
@@ -221,6 +249,16 @@ func run(c *common.Ctx) error {
 				results[i].class = "new-partial-op-site"
 				results[i].detail = fmt.Sprintf("%s:%d: %s `%s` in %s is not in harness/c17/inventory_baseline.txt "+
 					"(neither covered by a panic-freedom theorem nor reviewed)", s.File, s.Line, s.Kind, s.Text, s.Func)
+			}
+			if st == "guard-changed" || st == "guard-unrecorded" {
+				s, e := current[f[1]], baseline[f[1]]
+				results[i].class = "guard-changed-partial-op-site"
+				results[i].detail = fmt.Sprintf("%s:%d: %s `%s` in %s is listed as %s, but the guards it was reviewed with are not the guards of this tree: %s",
+					s.File, s.Line, s.Kind, s.Text, s.Func, e.Status, inventory.GuardDiff(s, e))
+				if st == "guard-unrecorded" {
+					results[i].detail = fmt.Sprintf("%s:%d: %s `%s` in %s is listed as %s without the guard fingerprint the review was made with",
+						s.File, s.Line, s.Kind, s.Text, s.Func, e.Status)
+				}
 			}
 			results[i].tag = "inventory-" + results[i].impl
 		default:
@@ -289,7 +327,12 @@ func run(c *common.Ctx) error {
 	}
 	// ---- evidence --------------------------------------------------------------------
 	inv := map[string]int{"sites": len(sites)}
-	var uncovered, newSites, stale []string
+	var uncovered, newSites, stale, guardChanged []string
+	for _, e := range baseline {
+		if inventory.NeedsGuards(e.Status) && e.GuardHash != "" {
+			inv["reviewed_with_guard_fingerprint"]++
+		}
+	}
 	coveredBy := map[string]int{}
 	for _, s := range sites {
 		st := statusOf(s.Key())
@@ -302,6 +345,9 @@ func run(c *common.Ctx) error {
 		case st == "uncovered":
 			inv["uncovered"]++
 			uncovered = append(uncovered, s.Key())
+		case st == "guard-changed" || st == "guard-unrecorded":
+			inv["guard_changed"]++
+			guardChanged = append(guardChanged, s.Key())
 		default:
 			inv["new"]++
 			newSites = append(newSites, s.Key())
@@ -317,6 +363,7 @@ func run(c *common.Ctx) error {
 	c.Extra["inventory_covered_by"] = coveredBy
 	c.Extra["inventory_uncovered_sites"] = uncovered
 	c.Extra["inventory_new_sites"] = newSites
+	c.Extra["inventory_guard_changed_sites"] = guardChanged
 	c.Extra["inventory_files"] = inventory.Globs
 	if c.OpsIn == "" {
 		var called, deniedNames []string
@@ -415,7 +462,9 @@ func writeRun(c *common.Ctx, results []opResult) error {
 		"(thorough; sampled in quick) + random arity/option/redirection combinations; forms: every head × every redirection shape " +
 		"+ random pipelines + RELATED arguments: doc:find with nested queries cut from real documentation blocks, str:/re: commands with " +
 		"patterns/replacements derived from the subject, commands and index/assignment forms with indices derived from the container, md:show on " +
-		"raw-HTML-ish and delimiter pieces. Non-trivial = every op; distinct by op line",
+		"raw-HTML-ish and delimiter pieces + SEQUENCE SHAPES (strings whose byte length and rune count differ, invalid UTF-8, lists and maps of " +
+		"every length 0..3, lists of these) in every container-like parameter and through the pipe of every command with an inputs parameter. " +
+		"make-map (makemap ops): every list of up to 2 inputs over 41 candidate pairs + random longer lists. Non-trivial = every op; distinct by op line",
 		Tags: map[string]int{}}
 	distinct := map[string]bool{}
 	for i, r := range results {
